@@ -208,6 +208,7 @@ func (ls *listenServer) OnMoved(addr string, slot int32, s core.SConn, f *core.F
 	if !ok {
 		logging.Errorf("[%dm|%df][%dc|%ds] moved/ask happen, proxy pool get addr %s failed",
 			f.MsgId(), f.Id, f.OwnerFd(), s.Fd(), addr)
+		failRedirect(f, codec.ErrUnKnownProxyPoolError)
 		return
 	}
 
@@ -215,6 +216,7 @@ func (ls *listenServer) OnMoved(addr string, slot int32, s core.SConn, f *core.F
 	if sConn == nil {
 		logging.Errorf("[%dm|%df][%dc|%ds] proxy dial %s failed",
 			f.MsgId(), f.Id, f.OwnerFd(), s.Fd(), addr)
+		failRedirect(f, codec.ErrUnKnownProxyPoolConnError)
 		return
 	}
 
@@ -222,6 +224,22 @@ func (ls *listenServer) OnMoved(addr string, slot int32, s core.SConn, f *core.F
 	f.Peer.Fd2Slot[sConn.Fd()] = slot
 
 	sConn.EnqueueOutFrag(f)
+}
+
+// failRedirect completes the request of a fragment that cannot be re-sent to the node a redirect
+// names: the event loop delivers the error; without this the client would wait forever.
+func failRedirect(f *core.Frag, e codec.Error) {
+	msg := f.Peer
+	if msg == nil {
+		return
+	}
+	msg.Error = e
+	msg.FragDoneNumber = len(msg.Body)
+	msg.RspBody = append(msg.RspBody[:0], e.Bytes()...)
+	msg.Done = true
+	for _, v := range msg.Body {
+		v.Done = true
+	}
 }
 
 // OnCClosed fires when a client connection has been closed.
